@@ -183,6 +183,11 @@ func reifyInto(opts *options, to reflect.Value, from *Config) Error {
 
 	switch k {
 	case reflect.Map:
+		// a nil pointer on the way to the map (Unpack(&p) with p a nil *map): allocate it
+		for to.Kind() == reflect.Ptr {
+			to.Set(reflect.New(to.Type().Elem()))
+			to = to.Elem()
+		}
 		return reifyMap(opts, to, from, nil)
 	case reflect.Struct:
 		return reifyStruct(opts, to, from)
